@@ -448,7 +448,7 @@ theorem equalRule_HJ (hw : WF A a b)
           · exact ⟨s2.1, Keeps.refl _⟩
           · exact ⟨s2.1.emitH _ rfl, fun _ hy => hy⟩
         refine ⟨s3.1.emitH _ ?_, fun y hy => s3.2 y (s2.2 y (k1 y hy))⟩
-        exact printRule_ok s3.1 rb ra.seq (fun x hx => s3.2 x (s2.2 x (hrdy x hx)))
+        exact printRule_ok s3.1 rb _ (fun x hx => s3.2 x (s2.2 x (hrdy x hx)))
       · have s2 : HJ A a b ({ q.1 with mode := none } : HSt) := s1.1.setMode none
         have s3 : HJ A a b (if cmChanged q.1 ra rb = true then ({ q.1 with mode := none } : HSt).emitH (.tgmap true ra) else ({ q.1 with mode := none } : HSt)) ∧
             Keeps q.1 (if cmChanged q.1 ra rb = true then ({ q.1 with mode := none } : HSt).emitH (.tgmap true ra) else ({ q.1 with mode := none } : HSt)) := by
@@ -456,7 +456,7 @@ theorem equalRule_HJ (hw : WF A a b)
           · exact ⟨s2, fun _ hy => hy⟩
           · exact ⟨s2.emitH _ rfl, fun _ hy => hy⟩
         refine ⟨s3.1.emitH _ ?_, fun y hy => s3.2 y (k1 y hy)⟩
-        exact printRule_ok s3.1 rb ra.seq (fun x hx => s3.2 x (hrdy x hx))
+        exact printRule_ok s3.1 rb _ (fun x hx => s3.2 x (hrdy x hx))
     · exact ⟨s1.1, k1⟩
 
 theorem mem_withIdx {α : Type} (l : List α) (p : Nat × α) (h : p ∈ withIdx l) : p.2 ∈ l := by
